@@ -84,6 +84,10 @@ def families(tier):
         [Rule("g *", glob=True, logic="undo_redo"), Rule("a *", [Rule("c")])],
         [Rule("a *", [Rule("g *", glob=True, logic="permanent"), Rule("c *", [Rule("e")])])],
     ])
+    # F21: %rewrite children under an %ordered block (a block that moves with an unchanged body is still written anew)
+    add("F21-rewrite-under-ordered", [[Rule("a *", [Rule("c *", rewrite=True)], ordered=True, nkeys=2)],
+                                      [Rule("a *", [Rule("c ~", rewrite=True, glob=True)], ordered=True, nkeys=2)],
+                                      [Rule("b"), Rule("a *", [Rule("c *", rewrite=True), Rule("d", rewrite=True)], ordered=True, nkeys=2)]])
     if tier == "thorough":
         # F6: depth 3
         add("F6-depth3", [[Rule("a *", [Rule("c *", [Rule(shape(s, "e"), **f)])])]
